@@ -285,6 +285,9 @@ package aper
 //@ ensures unc: vc.Imp(lowerBoundPtr == nil, result == nil && vcBitLen(pd) == (b0+7)&^7+8+8*uint64(per.MinOctetsSigned(value)))
 //@ ensures extunc: vc.Imp(lowerBoundPtr != nil && upperBoundPtr != nil && extensive && value > *upperBoundPtr, result == nil && vcBitLen(pd) == (b0+1+7)&^7+8+8*uint64(per.MinOctetsSigned(value)))
 //@ ensures semi: vc.Imp(lowerBoundPtr != nil && upperBoundPtr == nil && value >= *lowerBoundPtr, result == nil && vcBitLen(pd) == (b0+7)&^7+8+8*uint64(per.MinOctetsUnsigned(uint64(value-*lowerBoundPtr))))
+// A range above 64K (X.691 10.5.7.4): the number of value octets, minimum for the offset, is itself a
+// constrained whole number 1..(octets needed for ub-lb) in a bit field; the value octets are aligned.
+//@ ensures wide: vc.Imp(lowerBoundPtr != nil && upperBoundPtr != nil && *lowerBoundPtr <= value && value <= *upperBoundPtr && *upperBoundPtr-*lowerBoundPtr >= 65536, result == nil && vcBitLen(pd) == (b0+vcB2U(extensive)+uint64(per.FieldWidth(int64(per.MinOctetsUnsigned(uint64(*upperBoundPtr-*lowerBoundPtr)))))+7)&^7+8*uint64(per.MinOctetsUnsigned(uint64(value-*lowerBoundPtr))))
 //@ assigns &pd.bytes, &pd.bitsOffset
 //@ loop rawLength unroll 10
 //@ loop byteLen unroll 10
